@@ -57,6 +57,9 @@ type Rec struct {
 	notes    []string
 	fails    int
 	extra    map[string]interface{}
+	// ReplayAs: test name written into failure files (a fuzz target's crashers are replayed
+	// through the corresponding rapid test's oracle)
+	ReplayAs string
 }
 
 func envOr(k, d string) string {
@@ -204,7 +207,11 @@ func (r *Rec) Fail(c interface{}, v Verdict) {
 	if r.out == "" {
 		return
 	}
-	doc := map[string]interface{}{"property": r.Prop, "test": r.Test, "key": v.Key, "error": fmt.Sprint(v.Err), "case": c}
+	tn := r.Test
+	if r.ReplayAs != "" {
+		tn = r.ReplayAs
+	}
+	doc := map[string]interface{}{"property": r.Prop, "test": tn, "key": v.Key, "error": fmt.Sprint(v.Err), "case": c}
 	b, _ := json.MarshalIndent(doc, "", " ")
 	_ = os.WriteFile(filepath.Join(r.out, fmt.Sprintf("fail-%s-%s.json", r.Test, r.shard)), b, 0644)
 }
